@@ -84,7 +84,18 @@ def build_snapshot(shape, rng):
         snap.attributes.merge_in(BoundedAttributes(attributes=attrs))
     if shape['log_msg'] == 'text':
         snap.log_msg = '[deep] msg ' + t
-    snap.complete()
+    if shape['attrs'] == 'awkward' and shape['frames'] == 3:
+        # the wall clock is stepped back (an NTP correction) between the hit and the completion of the snapshot: a
+        # duration cannot be negative on the wire, and the snapshot is delivered all the same
+        import deep.api.tracepoint.eventsnapshot as es_mod
+        o_time = es_mod.time_ns
+        es_mod.time_ns = lambda: snap.ts_nanos - 5_000_000
+        try:
+            snap.complete()
+        finally:
+            es_mod.time_ns = o_time
+    else:
+        snap.complete()
     return snap
 
 
@@ -134,7 +145,7 @@ def expected_image(s):
                'watches': [e(w) for w in s.tracepoint.watches]},
         'table': {k: {'type': e(v.type), 'value': e(v.value), 'hash': v.hash, 'children': [vid(c) for c in v.children],
                       'truncated': bool(v.truncated)} for k, v in s.var_lookup.items()},
-        'ts': s.ts_nanos, 'duration': s.duration_nanos,
+        'ts': s.ts_nanos, 'duration': max(0, s.duration_nanos),
         'frames': [{'file': e(f.file_name), 'short': e(f.short_path), 'method': e(f.method_name), 'line': f.line_number,
                     'class': e(f.class_name) if f.class_name is not None else None, 'app': bool(f.app_frame),
                     'vars': [vid(v) for v in f.variables]} for f in s.frames],
